@@ -567,6 +567,12 @@ def _parse_node_for_arg(_required, action, choices, node, typ):
         )
         if len(maybe_choices) == len(node.elts):
             choices = maybe_choices
+            choice_types = frozenset(type(choice).__name__ for choice in choices)
+            if len(choice_types) == 1 and typ == FALLBACK_TYP:
+                # `Literal[1, 2]`: the choices are not strings, so argparse must convert with their type
+                (choice_type,) = choice_types
+                if choice_type in simple_types and choice_type != "str":
+                    typ = choice_type
     elif isinstance(node, Name):
         if node.id == "Optional":
             _required = False
